@@ -64,3 +64,23 @@ fn rac_edit_distance() {
     }
     println!("RAC-OK edit_distance cases={} nontrivial={} bound=len<=5,alphabet=3", cases, nontrivial);
 }
+
+// Beyond the proved bound (known finding D5): at 255 chars the u8 rows overflow (panic in debug builds,
+// wrap-around in release builds); above 255 the `as u8` row width truncates and the function indexes out
+// of bounds. The Verus contract therefore requires len <= 254; this check documents what happens beyond.
+#[test]
+fn rac_edit_distance_long() {
+    let mut cases = 0u64;
+    for n in [255usize, 256, 300] {
+        let a: Vec<char> = std::iter::repeat('a').take(n).collect();
+        let b: Vec<char> = std::iter::repeat('b').take(n).collect();
+        let r = std::panic::catch_unwind(std::panic::AssertUnwindSafe(|| edit_distance(&a, &b)));
+        cases += 1;
+        let want = n; // all substitutions
+        if !matches!(r, Ok(d) if d as usize == want) {
+            println!("RAC-CEX edit_distance_long {{\"a\": \"a*{}\", \"b\": \"b*{}\", \"want\": {}, \"got\": {:?}, \"panicked\": {}}}", n, n, want, r.as_ref().ok(), r.is_err());
+            panic!("edit_distance beyond 254 chars");
+        }
+    }
+    println!("RAC-OK edit_distance_long cases={} nontrivial={} bound=lengths-255-256-300", cases, cases);
+}
